@@ -172,6 +172,10 @@ func runC11(tier string) int {
 	run.Set("distinct_feature_vectors", len(featVectors))
 
 	// select (target, option set) pairs per unit; json/plain first as the gate
+	nBare, maxBare := 0, 5
+	if run.Thorough() {
+		maxBare = 16
+	}
 	goBatch := 14
 	if !run.Thorough() {
 		goBatch = 40
@@ -185,7 +189,7 @@ func runC11(tier string) int {
 		var h *emit.Harness
 		add := func(t target, s optSet) {
 			cp := &comp{ID: len(c.comps), U: u, T: t, S: s}
-			if t.Name == "go" {
+			if t.Name == "go" && !s.Bare {
 				if h == nil {
 					hi := u.Idx / goBatch
 					for len(c.harnesses) <= hi {
@@ -245,8 +249,14 @@ func runC11(tier string) int {
 				}
 				add(t, s)
 			}
+			// boundary value package_prefix= (empty) on programs with includes
+			if t.Name == "go" && len(u.Src) > 1 && nBare < maxBare && (u.Pool == "core" || u.Pool == "core-go" || u.Pool == "witness" && u.Class == "include_local_container_alias") {
+				nBare++
+				add(t, goBareSet)
+			}
 		}
 	}
+	run.Set("go_empty_package_prefix_compilations", nBare)
 	run.Set("compilation_keys(program,target,options)", len(c.comps))
 
 	tCompile := time.Now()
